@@ -17,7 +17,7 @@ class Unit:
 
     def __init__(self, name, target, make_inputs, post, contracts=None, inline=None, loops=None,
                  env=None, options=None, closure=None, replay=None, doc="", max_paths=600,
-                 allow_unreturned_cut=True, prop_clause=None, expect_paths=None, writes=None):
+                 allow_unreturned_cut=True, prop_clause=None, expect_paths=None, writes=None, arrays=None):
         self.name = name
         self.target = target
         self.make_inputs = make_inputs
@@ -35,6 +35,8 @@ class Unit:
         # frame: attribute names the function may write on its (object) inputs; anything else written,
         # added or removed is a failed `frame.auto` obligation (catches memoisation / hidden state)
         self.writes = set(writes or ())
+        # parameter names (or positions) that callers may pass as numpy arrays: in-place updates of them are frame violations
+        self.arrays = list(arrays or ())
 
     def verify(self):
         t0 = time.time()
@@ -97,6 +99,18 @@ class Unit:
             objs = _objects(args, kwargs, C)
             st.ghost["frame_snapshot"] = [(o, dict(o.attrs)) for o in objs]
             st.ghost["illegal_writes"] = []
+            arr = []
+            # by default the parameters that the library documents as "scalar or vector" are array-capable
+            for nm in (self.arrays or ["wavelength", "energy", "Q", "q", "stol"]):
+                if isinstance(nm, int) and nm < len(args):
+                    arr.append(("#%d" % nm, args[nm]))
+                elif nm in kwargs:
+                    arr.append((nm, kwargs[nm]))
+                else:
+                    names = [a.arg for a in ext.args.args]
+                    if nm in names and names.index(nm) < len(args):
+                        arr.append((nm, args[names.index(nm)]))
+            st.ghost["array_args"] = arr
             return args, kwargs, C
 
         def chk(st, C, r):
